@@ -83,7 +83,7 @@ def main():
             res = {'mutant': name, 'expect': expect, 'exit': p.returncode, 'violations': len(viol),
                    'classes': sorted(set(c.split()[1] for c in cls)), 'tests_pass': tests[0],
                    'tests_tail': tests[1], 'wall_s': round(dt, 1)}
-            ok = (p.returncode == 1) if expect == 'detect' else (p.returncode == 0)
+            ok = (p.returncode == 1) if expect == 'detect' else ((p.returncode == 2) if expect == 'unjudgeable' else (p.returncode == 0))
             # every replay file must reproduce in a fresh process on the mutated tree (exit 1) ...
             rp = []
             for l in viol[:3]:
